@@ -589,6 +589,7 @@ impl Model {
                 self.unchanged(Pat::Exact(Res::Paths(l)))
             },
             ConfigDir(_) => Expect::Unspecified("config_dir (environment dependent, judged by C18)"),
+            Held(..) => Expect::Unspecified("builder held across set_cwd (when a builder resolves its path is judged differentially by C02 / C13)"),
             Entries(p) => {
                 let a = a1!(p);
                 if self.node(&a).is_none() {
